@@ -254,3 +254,24 @@ Lemma pieces_profile (txts txts' : list text) s a :
 Proof.
   intros E. unfold ann_pieces. rewrite !map_map. apply map_ext. intros x. apply piece_length. exact E.
 Qed.
+
+(* with a text reference present nothing is asked of the digest either (modes Text and Both, and
+   Auto below 40 characters) *)
+Lemma refs_detect_with_text H s a ps ps' :
+  refs_from H s a ps -> ann_vstr s a KTXT <> None -> some_text ps = true ->
+  map (@length N) ps = map (@length N) ps' ->
+  by_reference H s a ps' = Some (texts_eqb ps ps').
+Proof.
+  intros (Hc & Hk & Ht) Hn Hs L. unfold by_reference.
+  set (d := odflt (ann_vstr s a KDEL)) in *.
+  set (j := text_join d ps) in *. set (j' := text_join d ps') in *.
+  assert (Nj : is_nil j = false) by (unfold j; rewrite join_nil, Hs; reflexivity).
+  assert (Ej : text_eqb j j' = texts_eqb ps ps').
+  { destruct (texts_eqb ps ps') eqn:E.
+    - apply texts_eqb_eq in E. unfold j, j'. rewrite E. apply text_eqb_refl.
+    - apply text_eqb_neq. intros C. apply (join_inj d ps ps' L) in C. apply texts_eqb_eq in C. congruence. }
+  destruct (ann_vstr s a KTXT) as [t|]; [|destruct (Hn eq_refl)]. rewrite (Ht t eq_refl), Ej.
+  destruct (ann_vstr s a KCHK) as [c|]; [|reflexivity]. rewrite (Hk c eq_refl). f_equal.
+  destruct (texts_eqb ps ps') eqn:E; [|apply andb_false_r].
+  apply text_eqb_eq in Ej. rewrite <- Ej, Nj, text_eqb_refl. reflexivity.
+Qed.
